@@ -151,6 +151,13 @@ def seq_model(headers, seq, seed, cap=6, pre=(), with_key=False, close=True):
             if k >= w or w <= 1:
                 return None
             m.add([A.TERM if i == k else A.NULL_I for i in range(w)])
+        elif s[0] in 'ZW':     # two join groups of one spine in one row: (k,k+1) and (k+3,k+4), separated by '*' (Z) or by a terminated sub-spine (W)
+            k = int(s[1:])
+            sp = m.spines()
+            if k + 4 >= w or len({sp[k + i] for i in range(5)}) != 1:
+                return None
+            mid = A.NULL_I if s[0] == 'Z' else A.TERM
+            m.add([A.JOIN if i in (k, k + 1, k + 3, k + 4) else (mid if i == k + 2 else A.NULL_I) for i in range(w)])
         elif s[0] == 'Y':      # join columns k,k+1 and split the last column in the same row
             k = int(s[1:])
             sp = m.spines()
